@@ -204,7 +204,8 @@ func (f *Fixture) Stop() {
 		select {
 		case <-done:
 		case <-time.After(30 * time.Second):
-			f.Inconclusive("wallet did not shut down within 30s")
+			buf := make([]byte, 1<<20)
+			f.Inconclusive("wallet did not shut down within 30s\n--- goroutines ---\n%s", filterStacks(string(buf[:runtime.Stack(buf, true)])))
 		}
 		f.W = nil
 	}
